@@ -672,7 +672,9 @@ func genPyroCase(r *rand.Rand, gi int) (pc pyroCase, class string) {
 		}
 		v := pick(r, vs)
 		if anchorSensitive {
-			switch r.Intn(3) {
+			switch r.Intn(4) {
+			case 3:
+				m.Val = "^" + v[:1] + "|" + pick(r, vs) + "$" // the user's own anchors around an alternation
 			case 0:
 				m.Val = v[:1+r.Intn(len(v))] // a prefix
 			case 1:
